@@ -21,9 +21,12 @@ def run(tier, seed):
 
 
 def nd_part(ctx, tier):
-    try:
-        from props import c09
-    except Exception:
-        return
-    if hasattr(c09, "scale_part"):
-        c09.scale_part(ctx, tier)
+    """ND histograms: scaling incl. the missed counter (tracked or not), normalize, partial_normalize."""
+    from lib.a_nd import NDAdapter
+    from lib.embed import POS, WTS
+    cfg = "MC_HistND_c06q" if tier == "quick" else "MC_HistND_c06t"
+    _res, g = ctx.model_check(cfg, required_actions=["FromArraysM", "ScaleND", "NormalizeND", "PartialNorm"])
+    view = {"accepted", "class", "bins", "freq", "err2", "missed", "total", "names", "live"}
+    # identity weight embedding only: a normalised content no longer scales with the weight unit
+    for pe, we, sp in [("dyadic", "int", 0), ("ulp", "float1", 1)]:
+        ctx.replay(g, NDAdapter(POS[pe], WTS[we], spelling=sp), view, label=f"ND:{pe}/{we}/sp{sp}")
